@@ -526,5 +526,14 @@ def r15_12(ctx):
         raise AnalysisError(f"only {n} functions with plain locals examined in kconfserver.core")
 
 
+def r15_13(ctx):
+    """R15.13 an error reply is built from what the caught exception really has: in kconfserver.core every attribute a handler reads
+    from the exception it caught exists on each class the handler names (`e.colno` exists on JSONDecodeError, not on the plain
+    ValueError / RecursionError the same handler catches) - an AttributeError inside the handler has no handler."""
+    from .common import handler_attribute_access
+    handler_attribute_access(ctx, ["kconfserver.core"], "the server dies without a reply")
+    ctx.ok("kconfserver.core/exception handlers examined for attribute reads", "", nontrivial=False)
+
+
 def rules():
-    return [("R15.12", r15_12, 8), ("R15.11", r15_11, 2), ("R15.10", r15_10, 2), ("R15.9", r15_9, 4), ("R15.7", r15_7, 1), ("R15.1", r15_1, 4), ("R15.2", r15_2, 2), ("R15.3", r15_3, 3), ("R15.4", r15_4, 2), ("R15.5", r15_5, 3), ("R15.6", r15_6, 2), ("R15.8", r15_8, 6)]
+    return [("R15.13", r15_13, 1), ("R15.12", r15_12, 8), ("R15.11", r15_11, 2), ("R15.10", r15_10, 2), ("R15.9", r15_9, 4), ("R15.7", r15_7, 1), ("R15.1", r15_1, 4), ("R15.2", r15_2, 2), ("R15.3", r15_3, 3), ("R15.4", r15_4, 2), ("R15.5", r15_5, 3), ("R15.6", r15_6, 2), ("R15.8", r15_8, 6)]
